@@ -811,14 +811,15 @@ SKINDS = ["geom", "canon", "diag", "canondiag", "hyp"]
 
 def gen_session(rng, n):
     for _ in range(n):
-        rank = rng.choice([2, 3, 3, 3, 4])
+        rank = rng.choice([1, 2, 2, 3, 3, 3, 4])
         members = []
         for _m in range(rng.choice([2, 3])):
             M = X.rand_matrix(rng, rank, finite=(2, 9), p_inf=0.25, p_two=0.3)
             # infinity mostly as a negative number (the slots cartan_matrix lets the caller parametrise)
             M = [[(rng.choice([-1, -1, -2, 0]) if x <= 0 else x) for x in row] for row in M]
             M = [[M[i][j] if i <= j else M[j][i] for j in range(rank)] for i in range(rank)]
-            members.append({"M": M, "ctor": rng.choice(CTORS), "style": rng.choice(["alpha", "alphanum"]),
+            ctor = rng.choice([c for c in CTORS if rank > 1 or not c.startswith("diagram")])   # a diagram needs a pair
+            members.append({"M": M, "ctor": ctor, "style": rng.choice(["alpha", "alphanum"]),
                             "dvec": [Q.qs(F(rng.randint(1, 5), rng.randint(1, 3))) for _ in range(rank)]})
         steps = []
         for _s in range(rng.choice([6, 8, 10])):
@@ -826,9 +827,13 @@ def gen_session(rng, n):
             M = members[g]["M"]
             r = rng.random()
             if r < 0.45:
-                steps.append({"g": g, "a": "rep", "kind": rng.choice(SKINDS), "scribble": rng.random() < 0.3})
+                steps.append({"g": g, "a": "rep", "kind": rng.choice(SKINDS), "scribble": rng.random() < 0.3,
+                              # non-default keyword options (enumerated from the signatures): requested number type
+                              "dtype": rng.choice([None, None, None, "float64", "float32", "complex128"])})
             elif r < 0.65:
                 steps.append({"g": g, "a": "cartan", "scaled": rng.random() < 0.5, "diag": rng.random() < 0.5,
+                              "order_eigenvalues": rng.choice(["signed", "signed", "minkowski"]),
+                              "rename": rng.choice([None, None, "alpha", "alphanum"]),
                               "dtype": rng.choice(["float", "float", "int"]), "scribble": rng.random() < 0.3})
             elif r < 0.85:
                 par = [[i, j, Q.qs(-F(rng.randint(5, 12), rng.randint(1, 2)))] for i in range(rank) for j in range(rank)
@@ -853,11 +858,12 @@ def _outcome(fn):
         raise
 
 
-def _rep_of(G, kind):
-    return {"geom": lambda: G.geometric_representation(), "canon": lambda: G.canonical_representation(),
-            "diag": lambda: G.geometric_representation(diagonalize=True),
-            "canondiag": lambda: G.canonical_representation(diagonalize=True),
-            "hyp": lambda: G.hyperbolic_rep()}[kind]
+def _rep_of(G, kind, dtype=None):
+    kw = {} if dtype is None else {"dtype": dtype}
+    return {"geom": lambda: G.geometric_representation(**kw), "canon": lambda: G.canonical_representation(**kw),
+            "diag": lambda: G.geometric_representation(diagonalize=True, **kw),
+            "canondiag": lambda: G.canonical_representation(diagonalize=True, **kw),
+            "hyp": lambda: G.hyperbolic_rep(**kw)}[kind]
 
 
 def run_session(inp):
@@ -892,7 +898,15 @@ def run_session(inp):
         return coxeter.CoxeterGroup(matrix=np.array(o["M"]))
 
     def gens_of(rep, names):
-        return [np.asarray(rep.generators[g], dtype=float) for g in names]
+        out_ = []
+        for g in names:
+            A = np.asarray(rep.generators[g])
+            if np.iscomplexobj(A):
+                if float(np.max(np.abs(A.imag))) > 1e-12:
+                    raise ValueError("complex generator matrix with non-zero imaginary part")
+                A = A.real
+            out_.append(np.asarray(A, dtype=float))
+        return out_
 
     def compare(step, o, what, got, ref, clauses=None):
         rec = {"step": step, "what": what, "M": o["M"]}
@@ -918,15 +932,19 @@ def run_session(inp):
                 continue
             if kind == "hyp" and not (o["nondeg"] and o["neg"] == 1):
                 continue
-            got = _outcome(lambda: gens_of(_rep_of(G, kind)(), names))
-            ref = _outcome(lambda: gens_of(_rep_of(fresh(o), kind)(), alpha))
+            dt = st.get("dtype")
+            got = _outcome(lambda: gens_of(_rep_of(G, kind, dt)(), names))
+            ref = _outcome(lambda: gens_of(_rep_of(fresh(o), kind, dt)(), alpha))
             compare(si, o, kind, got, ref, clauses=kind if kind in ("geom", "diag", "hyp") else "other")
+            out[-1]["single"] = dt == "float32"
+            if got[0] != "ok":
+                out[-1]["refused"] = True          # these kinds are only requested for non-degenerate forms
             if st["scribble"] and got[0] == "ok":
                 # the caller overwrites what it was handed: a second request must not see that
-                rep = _rep_of(G, kind)()
+                rep = _rep_of(G, kind, dt)()
                 for g in names:
                     rep.generators[g][...] = 7.0
-                got2 = _outcome(lambda: gens_of(_rep_of(G, kind)(), names))
+                got2 = _outcome(lambda: gens_of(_rep_of(G, kind, dt)(), names))
                 compare(si, o, kind + " after overwriting the returned matrices", got2, ref)
         elif st["a"] == "cartan":
             key = ("scaled" if st["scaled"] else "sym", "float")
@@ -935,9 +953,14 @@ def run_session(inp):
             if st["dtype"] == "int" and all(abs(x - round(x)) < 1e-12 for x in pristine.reshape(-1)):
                 C = np.rint(pristine).astype(int)        # an integer array where the Cartan matrix is integral
             before = np.array(C, dtype=float).copy()
-            got = _outcome(lambda: gens_of(G.cartan_representation(C, diagonalize=st["diag"]), names))
+            ckw = {"diagonalize": st["diag"], "order_eigenvalues": st.get("order_eigenvalues", "signed")}
+            cnames, calpha = names, alpha
+            if st.get("rename"):
+                ckw.update(rename_generators=True, generator_style=st["rename"])
+                cnames = calpha = ["abcdefgh"[i] if st["rename"] == "alpha" else "s%d" % i for i in range(rank)]
+            got = _outcome(lambda: gens_of(G.cartan_representation(C, **ckw), cnames))
             changed = float(np.max(np.abs(np.array(C, dtype=float) - before)))
-            ref = _outcome(lambda: gens_of(fresh(o).cartan_representation(before.copy(), diagonalize=st["diag"]), alpha))
+            ref = _outcome(lambda: gens_of(fresh(o).cartan_representation(before.copy(), **ckw), calpha))
             compare(si, o, "cartan" + ("+diagonalize" if st["diag"] else ""), got, ref, clauses="other")
             out[-1]["input_changed"] = changed
         elif st["a"] in ("vinberg", "cartan_matrix"):
@@ -984,6 +1007,8 @@ def judge_session(inp, obs, lr):
         return {"expected": "a session without exceptions", "observed": obs, "tags": {"exc": obs["exc"], "session": True}}
     for r in obs["res"]:
         tags = {"what": r["what"].split(" ")[0], "session": True}
+        if r.get("refused"):
+            return {"expected": "a representation (the cosine form is non-degenerate)", "observed": r, "tags": {**tags, "defence": "refused"}}
         if "outcome" in r:
             return {"expected": "same outcome as a fresh group with the same labels", "observed": r, "tags": {**tags, "defence": "G1-outcome"}}
         if r.get("input_changed", 0.0) > 0:
@@ -991,7 +1016,7 @@ def judge_session(inp, obs, lr):
         if r.get("fresh_diff", 0.0) > 1e-9:
             return {"expected": "same answer as a fresh group built from the same labels (history, aliasing and other objects must "
                                 "not matter)", "observed": r, "tags": {**tags, "defence": "G1-fresh"}}
-        tol = 1e-8 * r.get("scale", 1.0) ** 2
+        tol = (1e-3 if r.get("single") else 1e-8) * r.get("scale", 1.0) ** 2
         if r.get("invol", 0.0) > tol or r.get("braid", 0.0) > tol or r.get("form", 0.0) > tol:
             return {"expected": "relations / preserved form of the labels the group was constructed from", "observed": r,
                     "tags": {**tags, "defence": "clauses"}}
